@@ -188,6 +188,38 @@ Proof.
       destruct anr; split; try discriminate; intros H; exfalso; apply F, H.
   - split; [discriminate|]. intros [r [I1 [I2 _]]]. destruct (proj2 (Sn r) (conj I1 I2)).
 Qed.
+
+(* what calc_labels stores on a bond: special (order 8) bonds are never in a ring, any other bond is marked exactly
+   when its two ends lie in one common ring of the list *)
+Theorem bond_label_spec sssr n mb :
+  bond_label sssr n mb = true <-> b_ord (snd mb) <> 8 /\ exists r, In r sssr /\ In n r /\ In (fst mb) r.
+Proof.
+  unfold bond_label. destruct (Z.eqb_spec (b_ord (snd mb)) 8) as [E|E].
+  - split; [discriminate | intros [H _]; contradiction].
+  - rewrite bond_in_ring_spec. tauto.
+Qed.
+
+Lemma bool_eq_iff (a b : bool) : (a = true <-> b = true) -> a = b.
+Proof. destruct a, b; intros [H1 H2]; try reflexivity; [symmetry; apply H1; reflexivity | apply H2; reflexivity]. Qed.
+
+(* the two directions n->m and m->n of one bond (same order) get the same mark *)
+Theorem bond_label_sym sssr n m b : bond_label sssr n (m, b) = bond_label sssr m (n, b).
+Proof.
+  apply bool_eq_iff. rewrite !bond_label_spec. cbn [fst snd].
+  split; intros [H [r [I1 [I2 I3]]]]; (split; [exact H | exists r; tauto]).
+Qed.
+
+(* every entry calc_labels writes: the mark of the directed bond n->m of the molecule *)
+Theorem ring_labels_bonds_spec g sssr n m v : In (n, m, v) (snd (ring_labels g sssr)) <->
+  exists l b, In (n, l) (m_adj g) /\ In (m, b) l /\ v = bond_label sssr n (m, b).
+Proof.
+  unfold ring_labels. cbn [snd]. rewrite in_flat_map. split.
+  - intros [[n' l] [I H]]. cbn [fst snd] in H. apply in_map_iff in H. destruct H as [[m' b] [E J]]. cbn [fst] in E.
+    inversion E; subst. exists l, b. tauto.
+  - intros [l [b [I [J E]]]]. exists (n, l). split; [exact I|]. cbn [fst snd]. apply in_map_iff. exists (m, b).
+    split; [cbn [fst]; subst v; reflexivity | exact J].
+Qed.
+
 (* ---------- GF(2) vectors ---------- *)
 Lemma bit_nil i : bit [] i = false.
 Proof. unfold bit. destruct i; reflexivity. Qed.
